@@ -570,6 +570,21 @@ where
 /-- block of a revisit record: the recorded response cut down to its header block -/
 def revisitBlock (recorded : Bytes) : Bytes := recorded.take (payloadOffset recorded)
 
+/-! ### `--warc-dedup`: when is a capture a revisit? -/
+
+/-- digest column of a CDX line (`_write_cdx_field`), which `WARCVisitsTask` loads verbatim into
+the URL table: the base32 SHA-1 of the payload, or the placeholder `-` when the run that wrote
+the index had digests off -/
+def cdxDigest (d : Option Str) : Str := d.getD (lit "-")
+
+/-- digest `_record_revisit` asks the table for: `WARC-Payload-Digest` without `SHA1:`, or `''`
+when the current run has digests off -/
+def lookupDigest (d : Option Str) : Str := d.getD []
+
+/-- `WARCVisit.get_revisit_id(url, digest)` for a URL the index lists: string equality of the
+stored and the current digest -/
+def revisitHit (old new : Option Str) : Bool := cdxDigest old == lookupDigest new
+
 /-! ## `asyncio.StreamReader` mirror (ties the schedule abstraction to segments) -/
 
 /-- buffer of a `StreamReader` and whether `feed_eof` was called -/
